@@ -1251,10 +1251,55 @@ def oracle_regressions(ctx):
             ctx.fail("repaired defect is back (index flip axis): %s during %s" % (type(e).__name__, phase), {"case": {"op": "index", "key": str(key)}})
 
 
+def witness_corpus():
+    """One fixed minimal witness per listed finding: (key, optimizer setting, build thunk, classifier params)."""
+    import numpy as np
+
+    import cubed
+    import cubed.array_api as xp
+
+    def late_contraction():
+        x, y = arr([2], [1]), arr([4, 2], [4, 1])
+        return cubed.map_blocks(lambda xb, yb: xb + yb.sum(axis=0), x, y, dtype="int64", drop_axis=0)
+    mb = {"family": "map_blocks_late_contraction", "first_has_contracted": False, "later_has_contracted": True}
+    return [
+        ("legacy-fuse-stream", "simple", lambda: xp.sum(xp.negative(arr([4], [4], "float64"))), {}),
+        ("map-blocks-late-contraction", "default", late_contraction, mb),
+        ("repeat-zero", "default", lambda: xp.repeat(arr([4], [2]), 0), {}),
+        ("repeat-negative-axis", "default", lambda: xp.repeat(arr([2, 4], [1, 1]), 3, axis=-2), {}),
+        ("clip-min-only", "default", lambda: xp.clip(arr([4], [2]), min=1), {}),
+        ("empty-operands-unaligned", "default",
+         lambda: xp.add(xp.asarray(np.zeros((4, 0)), chunks=(3, 1), spec=spec()), xp.asarray(np.zeros((4, 0)), chunks=(4, 1), spec=spec())), {}),
+        ("var-zero-dim", "default", lambda: xp.var(xp.asarray(np.asarray(3.0), spec=spec())), {}),
+        ("zero-chunk-size", "default", lambda: arr([4], [2]).rechunk((0,)), {}),
+        ("split-every-zero", "default", lambda: xp.sum(arr([6, 4], [2, 2]), axis=0, split_every={0: 0}), {}),
+    ]
+
+
+def oracle_witnesses(ctx):
+    """Run the fixed witness of every listed finding once (single-threaded), so that each defect still present is
+    reported on every run whatever the seed; a witness that no longer fails prints nothing."""
+    opts = optimizers()
+    for key, cname, build, params in witness_corpus():
+        phase, e = run_phases(build, opts[cname])
+        v = verdict(phase, e)
+        ctx.count({"witness": key, "config": cname}, nontrivial=True,
+                  kind="oracle:witness:%s:%s" % (key, "holds" if v is None else "fails"))
+        if v is None:
+            continue
+        try:
+            got = classify(build, opts[cname], phase, e, params)
+        except Exception:  # noqa: BLE001
+            got = None
+        ctx.fail(v, dict(case={"witness": key}, config=cname, executor="single", phase=phase,
+                         exception=type(e).__name__, site=site_of(e)), key=got)
+
+
 def oracle(ctx):
     import common
     common.use_repo()
     import exprgen
+    oracle_witnesses(ctx)
     nprog = ctx.budget(60, 350)
     for i in range(nprog):
         prog = exprgen.gen_program(ctx.rng, max_depth=ctx.rng.choice([1, 2, 3, 4]), max_elems=600, max_blocks=40)
